@@ -421,12 +421,49 @@ def _check_dataset_front_end(t: Tally):
         pass
 
 
+def _check_edited_entry_list(t: Tally):
+    """A container of a USED definition gets one more entry (appended in place to its entry list): from then on the packets of the old size are
+    the short ones (flagged, withheld when bad packets are excluded) and the packets one byte longer are the clean ones."""
+    from mc.kernel import observed_warnings
+    from space_packet_parser.xtce import encodings, parameter_types, parameters
+    doc = docs.selector_doc([([PType("EU8_T", "Integer", IntEnc(8)), PType("EU16_T", "Integer", IntEnc(16))], [Param("EA", "EU8_T"), Param("EB", "EU16_T")],
+                              [("p", "EA"), ("p", "EB")])], root_abstract=True)
+    old_pkt = docs.packet_for(0, format(5, "08b") + format(1285, "016b"))
+    new_pkt = docs.packet_for(0, format(5, "08b") + format(1285, "016b") + "10100101", seqcount=1)
+    for nested in (False, True):
+        defn = load_doc(doc)
+        cname = next(n for n, c in defn.containers.items() if any(getattr(e, "name", None) == "EA" for e in c.entry_list))
+        with observed_warnings():
+            list(defn.packet_generator(old_pkt))       # used
+        defn.containers[cname].entry_list.append(parameters.Parameter("EXTRA", parameter_types.IntegerParameterType("EXTRA_T", encodings.IntegerDataEncoding(8, "unsigned"))))
+        for label, pkt, clean in (("old size", old_pkt, False), ("one byte longer", new_pkt, True)):
+            for pb in (True, False):
+                t.evals += 1
+                t.nontrivial += 1
+                with observed_warnings() as w:
+                    try:
+                        out = list(defn.packet_generator(pkt, parse_bad_pkts=pb))
+                        res = ("yielded" if out else "withheld", len(w))
+                    except Exception as e:  # noqa: BLE001
+                        res = ("raised " + type(e).__name__, len(w))
+                ok = (res == ("yielded", 0)) if clean else (res[0].startswith("raised") or (res[0] == "yielded" and res[1] > 0 and pb) or (res[0] == "withheld" and not pb))
+                if ok and clean and "EXTRA" not in out[0]:
+                    ok = False
+                if not ok:
+                    t.violation({"kind": "accounting", "class": "clean" if clean else "short", "after": "entry list extended in place", "parse_bad_pkts": pb},
+                                {"edited_entry_list": True, "packet": label, "parse_bad_pkts": pb}, observed=list(res),
+                                note="after an entry was appended to a used container, a packet is not judged by the definition as it is now")
+        if nested:
+            break
+
+
 def run(ctx):
     n = len(layouts(ctx.tier))
     tasks = [{"layouts": [i], "via": "xml", "tier": ctx.tier} for i in range(n)] + [{"layouts": list(range(n)), "via": "objects", "tier": ctx.tier}]
     tally = fan_out(_task, tasks, jobs=ctx.jobs, seed=ctx.seed)
     tally.merge(fan_out(_task_chains, [{"via": "xml"}, {"via": "objects"}], jobs=2, seed=ctx.seed))
     _check_dataset_front_end(tally)
+    _check_edited_entry_list(tally)
     coverage = {
         "programs": tally.programs,
         "exhaustive": True,
@@ -444,6 +481,10 @@ def run(ctx):
 
 
 def replay(case):
+    if case.get("edited_entry_list"):
+        t = Tally()
+        _check_edited_entry_list(t)
+        return next((v for v in t.violations if v["case"].get("packet") == case.get("packet") and v["case"].get("parse_bad_pkts") == case.get("parse_bad_pkts")), None)
     if case.get("dataset_front_end"):
         t = Tally()
         _check_dataset_front_end(t)
